@@ -33,7 +33,6 @@ package c15
 import (
 	"bytes"
 	"fmt"
-	"os"
 	"testing"
 	"time"
 
@@ -109,6 +108,9 @@ func genCase(t *rapid.T) Case {
 		if k.End == "write-timeout" && (k.Kind == "rtmp" || k.Kind == "rtsp" || k.Kind == "wsrtsp") {
 			k.End = "sweep" // their write timeout (10 s) is not configurable; the sweep is what disconnects them
 		}
+		if k.Mode == "slow" && k.End == "write-timeout" {
+			k.End = "resume" // a slow reader keeps its writer from ever being blocked for 150 ms
+		}
 		if k.Stall && k.End == "resume" && rapid.Bool().Draw(t, "midStall") {
 			k.ResumeAt = rapid.IntRange(0, c.Queue+c.ExtraMsg-1).Draw(t, "resumeAt")
 		}
@@ -139,9 +141,10 @@ type attached struct {
 	conn *memconn.Conn
 	pc   *pacer
 
-	second    bool // the consumer of the second stream
-	resumedAt int  // len(P) when it resumed in the middle of the stall phase (-1: it did not)
-	slowOn    bool
+	second     bool // the consumer of the second stream
+	resumedMid bool // it resumed in the middle of the stall phase
+	resumedAt  int  // first message published after it had resumed and its queue had been seen draining (-1: not known)
+	slowOn     bool
 }
 
 func (a *attached) kind() string { return a.spec.Kind }
@@ -221,24 +224,29 @@ func (r *runner) send2(it gen.Item) *pbt.Violation {
 	return nil
 }
 
-// grantSlow lets every slow consumer read its next Rate bytes.
-func (r *runner) grantSlow() {
+// grantSlow lets every slow consumer read its next Rate/div bytes.
+func (r *runner) grantSlow(div int) {
 	for _, a := range r.cons {
 		if a.slowOn {
-			a.pc.grant(int64(a.spec.Rate))
+			n := a.spec.Rate / div
+			if n < 1 {
+				n = 1
+			}
+			a.pc.grant(int64(n))
 		}
 	}
 }
 
 // waitConsumed waits until lal has consumed what the publisher sent.  While the wait lasts, slow consumers keep
-// reading at their rate, and (in the stall phase) the fan-out goroutine is looked at: parked = evidence for the
-// latency rule.  Not consumed within DeliverTimeout while the fan-out is parked = the publisher is blocked.
+// reading (a fifth of their per-message rate every 5 ms: a slow reader does not stop reading because the server is
+// busy), and (in the stall phase) the fan-out goroutine is looked at: parked = evidence for the latency rule.  Not
+// consumed within DeliverTimeout while the fan-out is parked = the publisher is blocked.
 func (r *runner) waitConsumed(p *lalclient.Publisher, second bool) *pbt.Violation {
 	start := time.Now()
 	samples := 0
-	for !p.Conn.WaitPeerIdle(25 * time.Millisecond) {
-		r.grantSlow()
-		if r.inStal && samples < 3 {
+	for n := 1; !p.Conn.WaitPeerIdle(5 * time.Millisecond); n++ {
+		r.grantSlow(5)
+		if r.inStal && samples < 3 && n%5 == 0 {
 			samples++
 			if stuck, stack := parkedFanout(15 * time.Millisecond); stuck {
 				r.lat.evidence(second, stack)
@@ -517,7 +525,7 @@ func run(c Case) *pbt.Violation {
 	// later packet is offered to its queue, so the small queue is certainly full after the stall phase
 	flowing := map[*attached]bool{}
 	stallOne := func(a *attached) {
-		if a.rs != nil && a.conn.TotalReceived() > bytesAtJoin[a] {
+		if a.rs != nil && a.spec.Mode == "stall" && a.conn.TotalReceived() > bytesAtJoin[a] {
 			flowing[a] = true
 		}
 		if a.spec.Mode == "slow" {
@@ -540,7 +548,7 @@ func run(c Case) *pbt.Violation {
 	for k := next; k < len(c.Items); k++ {
 		r.p.WaitIdle()
 		stallNow(k)
-		r.grantSlow()
+		r.grantSlow(1)
 		if v := r.send(c.Items[k]); v != nil {
 			return v
 		}
@@ -563,8 +571,10 @@ func run(c Case) *pbt.Violation {
 	for j, it := range stallItems {
 		for _, a := range cons {
 			if a.spec.Stall && a.spec.End == "resume" && a.spec.ResumeAt == j {
-				a.resumedAt = len(r.P)
+				before := a.conn.TotalReceived()
+				a.resumedMid = true
 				resumeOne(a)
+				a.resumedAt = r.awaitDrain(a, before)
 			}
 			if a.rs != nil && a.spec.Ping == j {
 				// an RTSP client keeps its session alive from a timer, whether or not it is reading
@@ -572,7 +582,7 @@ func run(c Case) *pbt.Violation {
 				a.conn.WaitPeerIdle(lalclient.IdleTimeout)
 			}
 		}
-		r.grantSlow()
+		r.grantSlow(1)
 		var ph *phase
 		if j > c.Queue { // the queues of the stalled consumers are full from here on
 			ph = &r.lat.stall
@@ -632,7 +642,7 @@ func run(c Case) *pbt.Violation {
 		}
 		switch a.spec.End {
 		case "resume":
-			if a.resumedAt < 0 {
+			if !a.resumedMid {
 				resumeOne(a)
 			}
 		case "write-timeout":
@@ -646,7 +656,9 @@ func run(c Case) *pbt.Violation {
 		case "sweep":
 			if !swept {
 				// two sweeps of every group with no bytes written to the stalled consumers in between
-				s.Call("Tick", func() { s.SM.VerifTick(1) })
+				if v := r.tick(1); v != nil {
+					return v
+				}
 				for _, ss := range s.SM.StatGroup(stream).StatSubs {
 					wroteAtTick1[ss.RemoteAddr] = ss.WroteBytesSum
 				}
@@ -684,7 +696,9 @@ func run(c Case) *pbt.Violation {
 						nothingWritten[ss.RemoteAddr] = true
 					}
 				}
-				s.Call("Tick", func() { s.SM.VerifTick(2) })
+				if v := r.tick(2); v != nil {
+					return v
+				}
 				swept = true
 				for hi, h := range cons {
 					if !h.spec.Stall && h.rc != nil {
@@ -787,6 +801,72 @@ func indexOf(P []lalclient.Rec) map[[32]byte][]int {
 	return index
 }
 
+// tick runs one iteration of the server's one-second ticker (every group is swept under the manager lock).  A sweep
+// that does not return while its goroutine is parked (same stack in two dumps a second apart) is blocked by a stalled
+// consumer; if the manager lock cannot be taken either, no session of any stream can join or leave.
+func (r *runner) tick(n uint32) *pbt.Violation {
+	done := r.s.Go("Tick", func() { r.s.SM.VerifTick(n) })
+	start := time.Now()
+	for {
+		select {
+		case <-done:
+			return r.s.PanicViolation()
+		case <-time.After(100 * time.Millisecond):
+		}
+		if time.Since(start) < 3*time.Second {
+			continue
+		}
+		if stuck, stack := pbt.StuckGoroutine("logic.(*ServerManager).VerifTick", time.Second); stuck {
+			probe := r.s.Go("GetGroup", func() { r.s.SM.GetGroup("live", stream2) })
+			select {
+			case <-probe:
+				return pbt.V("S4/sweep-blocked-by-stalled-consumer", "liveness sweep %d has not returned after %v and is parked:\n%s", n, time.Since(start), stack)
+			case <-time.After(time.Second):
+				return pbt.V("S5/server-frozen-by-stalled-consumer", "liveness sweep %d has not returned after %v, is parked, and holds the manager lock (a lookup of the second stream's group does not return): no session of any stream can join or leave:\n%s", n, time.Since(start), stack)
+			}
+		}
+		if time.Since(start) > lalclient.DeliverTimeout {
+			lalclient.Harness("liveness sweep not done and not parked (slow machine?)")
+		}
+	}
+}
+
+// awaitDrain is called right after a stalled consumer resumed reading.  lal's writer goroutine for it was blocked in
+// a write (or idle, if nothing had been queued); the messages published next can only be queued once that goroutine has
+// run and taken entries out of the full queue, which on a loaded machine may take longer than publishing the rest of
+// the case.  So the harness waits until the writer is seen to have gone on to the next queue entry (or the flow of bytes
+// has paused for 50 ms): from then on there is room in the queue, and "units published later reach the consumer" is a fair demand.  It returns the index of the first
+// message published after that point, or -1 when no byte arrived (nothing was queued, or the connection is gone).
+func (r *runner) awaitDrain(a *attached, before int64) int {
+	n0 := 0
+	if a.rc != nil {
+		n0 = a.rc.count()
+	}
+	deadline := time.Now().Add(250 * time.Millisecond)
+	for a.conn.TotalReceived() == before {
+		if time.Now().After(deadline) || a.conn.PeerGone() {
+			pbt.Count("resume-mid-stall-nothing-was-queued", 1)
+			return -1
+		}
+		time.Sleep(200 * time.Microsecond)
+	}
+	// the write that was blocked has completed.  Two decoded units mean that the writer has gone round its loop and
+	// taken a further entry out of the queue; failing that, a flow that has paused for a while
+	prev, stable := a.conn.TotalReceived(), 0
+	for n := 0; n < 4000 && stable < 100; n++ {
+		if a.rc != nil && a.rc.count() >= n0+2 {
+			break
+		}
+		time.Sleep(500 * time.Microsecond)
+		if cur := a.conn.TotalReceived(); cur == prev {
+			stable++
+		} else {
+			prev, stable = cur, 0
+		}
+	}
+	return len(r.P)
+}
+
 // checkContinuation: a consumer that resumed reading in the middle of the stall phase and is still connected
 // must be given units published after it resumed (which ones is not asserted: its queue may still have been full
 // for a while).  Its connection may have been closed by lal before it resumed (write timeout): not judged then.
@@ -813,7 +893,7 @@ func (r *runner) checkContinuation(a *attached, i int) *pbt.Violation {
 			return nil // reported by the framing check
 		}
 		if time.Now().After(deadline) {
-			return pbt.V("S3/resumed-consumer-gets-nothing/"+a.kind(), "consumer %d (%s) resumed reading before published message %d and is still connected, but none of the %d messages published after that reached it (%d records decoded, %d bytes received, %d unread)\n%s", i, a.kind(), a.resumedAt, len(r.P)-a.resumedAt, a.rc.count(), a.conn.TotalReceived(), a.conn.Pending(), debugDump()+fmt.Sprintf(" self=%s stat=%+v", a.conn.LocalAddr(), r.s.SM.StatGroup(stream)))
+			return pbt.V("S3/resumed-consumer-gets-nothing/"+a.kind(), "consumer %d (%s) resumed reading before published message %d and is still connected, but none of the %d messages published after that reached it (%d records decoded, %d bytes received, %d unread); %s", i, a.kind(), a.resumedAt, len(r.P)-a.resumedAt, a.rc.count(), a.conn.TotalReceived(), a.conn.Pending(), fmt.Sprintf("received published indices %v", gotIdx(a, r.P)))
 		}
 		a.rc.waitCount(a.rc.count(), 200*time.Millisecond)
 	}
@@ -1090,10 +1170,16 @@ func TestStalledConsumer(t *testing.T) {
 
 var _ = rtspref.Frame{}
 
-func debugDump() string {
-	if os.Getenv("C15_DEBUG") == "" {
-		return ""
+func gotIdx(a *attached, P []lalclient.Rec) []int {
+	idx := indexOf(P)
+	var out []int
+	for _, x := range a.rc.Recs() {
+		k := idx[recKey(x)]
+		if len(k) == 0 {
+			out = append(out, -1)
+		} else {
+			out = append(out, k[0])
+		}
 	}
-	_ = os.WriteFile("/tmp/c15-goroutines.txt", []byte(pbt.AllGoroutines()), 0o644)
-	return "(goroutines in /tmp/c15-goroutines.txt)"
+	return out
 }
